@@ -81,7 +81,7 @@ def swarm(seed, tier, profile="general"):
     if profile in ("general", "boundary", "subbatch"):
         if r.coin(0.3):
             roots.append("NNControlGaussianConditional")
-    if profile in ("general", "boundary"):
+    if profile in ("general", "boundary", "subbatch"):
         for c in APPROX_ROOTS:
             if r.coin(0.2):
                 roots.append(c)
